@@ -12,7 +12,7 @@ C = 'cnfgen/formula/cnf.py'
 CLASSMODELS = {
     'CNF': {'file': C, 'fields': {'_clauses': 'mclist', '_numvar': 'int', 'header': 'opaque'}},
     # abstract bipartite graph: identity `gid`, sizes; neighbour lists are the spec function rnbrs(gid, u)
-    'BipartiteGraph': {'file': 'cnfgen/graphs.py', 'fields': {'gid': 'int', 'lorder': 'int', 'rorder': 'int'},
+    'BipartiteGraph': {'file': 'cnfgen/graphs.py', 'fields': {'gid': 'int', 'lorder': 'int', 'rorder': 'int', 'name': 'opaquestr'},
                        'invariant': ['self.lorder >= 0', 'self.rorder >= 0']},
 }
 
